@@ -1199,6 +1199,7 @@ func (s *Server) serveWatch(req *http.Request, r *Request) (*http.Response, erro
 
 	pr, pw := io.Pipe()
 	ctx := req.Context()
+	body := &watchBody{PipeReader: pr, closed: make(chan struct{})}
 	go func() {
 		defer func() {
 			s.mu.Lock()
@@ -1222,6 +1223,8 @@ func (s *Server) serveWatch(req *http.Request, r *Request) (*http.Response, erro
 			select {
 			case <-ctx.Done():
 				return
+			case <-body.closed:
+				return
 			case ev := <-sub.ch:
 				if !write(ev) {
 					return
@@ -1230,11 +1233,26 @@ func (s *Server) serveWatch(req *http.Request, r *Request) (*http.Response, erro
 		}
 	}()
 	go func() {
-		<-ctx.Done()
-		pr.CloseWithError(ctx.Err())
+		select {
+		case <-ctx.Done():
+			pr.CloseWithError(ctx.Err())
+		case <-body.closed:
+		}
 	}()
 	return &http.Response{StatusCode: 200, Status: "200 OK", Proto: "HTTP/1.1", ProtoMajor: 1, ProtoMinor: 1,
-		Header: http.Header{"Content-Type": []string{"application/json"}, "Transfer-Encoding": []string{"chunked"}}, Body: pr, ContentLength: -1, Request: req}, nil
+		Header: http.Header{"Content-Type": []string{"application/json"}, "Transfer-Encoding": []string{"chunked"}}, Body: body, ContentLength: -1, Request: req}, nil
+}
+
+// watchBody notices when the client closes the stream (a stopped reflector).
+type watchBody struct {
+	*io.PipeReader
+	once   sync.Once
+	closed chan struct{}
+}
+
+func (w *watchBody) Close() error {
+	w.once.Do(func() { close(w.closed) })
+	return w.PipeReader.Close()
 }
 
 // OpenWatches returns the number of open watch streams per resource.
@@ -1397,4 +1415,11 @@ func (s *Server) Seq() int {
 	s.mu.Lock()
 	defer s.mu.Unlock()
 	return s.seq
+}
+
+// ListCallCount returns how many LIST requests a resource has served.
+func (s *Server) ListCallCount(resource string) int {
+	s.mu.Lock()
+	defer s.mu.Unlock()
+	return s.ListCalls[resource]
 }
